@@ -10,6 +10,7 @@ pub mod c12;
 pub mod c13;
 pub mod c14;
 pub mod c15;
+pub mod c16;
 pub mod c17;
 pub mod c18;
 
@@ -29,6 +30,7 @@ pub fn dispatch(p: &str, rep: &mut Report) -> bool {
         "C13" => c13::run(rep),
         "C14" => c14::run(rep),
         "C15" => c15::run(rep),
+        "C16" => c16::run(rep),
         "C17" => c17::run(rep),
         "C18" => c18::run(rep),
         _ => return false,
